@@ -18,7 +18,7 @@ from vlib.oracles import iso
 from vlib.runner import Inconclusive, Sub, Violation
 
 PROPERTY = "C11"
-from vlib.c11_pruning import body_pruning, left_only_orbits, strat_pruning  # noqa: E402
+from vlib.c11_pruning import body_pruning, enum_pruning_own, left_only_orbits, strat_pruning  # noqa: E402
 
 RULE_PARTS = [
     "graphs: exhaustive over all labelled graphs on 0..4 nodes (quick: n<=3 over element{C,N} x charge{0,-1} x "
@@ -516,6 +516,8 @@ SUBS = [
         doc="Hypothesis graphs <= 9 nodes incl. symmetric families and twin components, generated key lists / missing attributes / refinement bound"),
     Sub("dedup", body_dedup, strategy=strat_dedup, examples={"quick": 12000, "thorough": 200000}, shards={"quick": 16, "thorough": 16},
         doc="deduplicate_matches_with_anchor on brute-force match lists: order-preserving sub-list made of the input's elements, input untouched, idempotent, one representative per documented class"),
+    Sub("pruning_own_pairs", body_pruning, enum=enum_pruning_own, exhaustive=True, shards={"quick": 16, "thorough": 16},
+        doc="pruned vs raw on every eligible corpus reaction with its own substrate, both directions (centre templates; thorough adds full ITS)"),
     Sub("pruning_vs_raw", body_pruning, strategy=strat_pruning, examples={"quick": 1600, "thorough": 40000}, shards={"quick": 16, "thorough": 16},
         doc="SynReactor with its symmetry pruning vs the same reactor fed every raw SubgraphSearchEngine match: identical sets of distinct reactions (own RDKit keys); pruned matches are a sub-list of the raw ones"),
 ]
